@@ -27,6 +27,10 @@ def projection(core):
     jobs, running = core[2], core[5]
     out = []
     for i, j in enumerate(jobs):
+        if not j["present"]:
+            # a job that is not listed (purged, lost): nothing is reported about it; its runs may still be open
+            out.append("-:" + "".join("%d," % t for t in sorted(running[i])))
+            continue
         le = j["lastErr"]
         if le == "exit":
             le = "other"
